@@ -13,6 +13,9 @@ def run(c):
     A.validate_assembly_concrete(c)     # a mismatch makes the run inconclusive; the obligations still run, and what they find is reported only after native confirmation
     ct = A.conv_table_for([p for w in A.WRAPPERS_QUICK for p in w])
     A.obl_order(c, ct, thorough=(c.tier == "thorough"), budget_s=1500)
+    # "by edit distance from the plain transliteration": the number a dictionary word is ranked by is what the edit-distance function
+    # answers for (transliteration, word) - the dictionary search itself is an oracle in the assembly shapes, this is the piece behind it
+    A.obl_dictionary_rank(c, budget_s=300)
     # "user entry before bundled entry": the user's list the assembly consults is the file as it can be read now - a file that could not be
     # read earlier is read again as soon as it can be
     import obl_phonetic
